@@ -105,7 +105,7 @@ class GenoIndex(SubCheck):
             it = Interp(mod, inputs_symbolic=True, time_budget=600 if tier == "quick" else 2400)
             status = run_in_thread(lambda: it.run_harness())
         except Unsupported as u:
-            return JobResult(sub=self.name, shape=shape, stats=stats, violations=[], samples=[], cover={}, errors=["LLSym unsupported: %s" % u], replays=0, obligations=1, discharged=0, inconclusive=1, wall_s=time.time() - t0)
+            return JobResult(sub=self.name, shape=shape, stats=stats, violations=[], samples=[], cover={}, errors=([] if "time budget exceeded" in str(u) else ["LLSym unsupported: %s" % u]), replays=0, obligations=1, discharged=0, inconclusive=1, wall_s=time.time() - t0)
         stats["decisions"] = it.stats["merges"] + it.stats["splits"]
         exe = pipeline.native_twin(src, UNITS, tag="gtwin")
         cons = list(it.constraints)
@@ -262,7 +262,7 @@ class BinomKernel(SubCheck):
             it = Interp(mod, inputs_symbolic=True, time_budget=600)
             status = run_in_thread(lambda: it.run_harness())
         except Unsupported as u:
-            return JobResult(sub=self.name, shape=shape, stats=stats, violations=[], samples=[], cover={}, errors=["LLSym unsupported: %s" % u], replays=0, obligations=1, discharged=0, inconclusive=1, wall_s=time.time() - t0)
+            return JobResult(sub=self.name, shape=shape, stats=stats, violations=[], samples=[], cover={}, errors=([] if "time budget exceeded" in str(u) else ["LLSym unsupported: %s" % u]), replays=0, obligations=1, discharged=0, inconclusive=1, wall_s=time.time() - t0)
         exe = pipeline.native_twin(src, ["binomial.cpp"], tag="btwin")
         n = z3.Int("n")
         table = z3.IntVal(math.comb(29, k))
